@@ -2,7 +2,8 @@
 import struct, json
 
 UNDEF = -1
-MOD_IDS = {"tests": 1, "pe": 2}
+MOD_IDS = {"tests": 1, "pe": 2, "hash": 3}
+HASH_OF = {}     # file id -> md5 hex digest (filled by the check that uses rule kind "Hash")
 MOD_NAMES = {v: k for k, v in MOD_IDS.items()}
 ERR = {0: "SUCCESS", 26: "TIMEOUT", 28: "CALLBACK_ERROR", 30: "TOO_MANY_MATCHES", 61: "BLOCK_NOT_READY", 46: "TOO_MANY_RE_FIBERS"}
 BOMB_RE = "/BOMB(x{1,60}){1,60}y/"          # needs more than RE_MAX_FIBERS (1024) fibers on BOMB_DATA
@@ -74,6 +75,7 @@ def cond_text(c, rule_names):
     if k == "Mod": return "tests.constants.one == 1"
     if k == "PeSec": return "pe.number_of_sections == 1"
     if k == "Ext": return "ext_t == %d" % c["a"]
+    if k == "Hash": return 'hash.md5(0, filesize) == "%s"' % HASH_OF[c["a"]]
     raise ValueError(k)
 
 
@@ -82,7 +84,7 @@ def C(k, a=0, b=0):
 
 
 def needs_module(c):
-    return {"Mod": "tests", "PeSec": "pe"}.get(c["k"])
+    return {"Mod": "tests", "PeSec": "pe", "Hash": "hash"}.get(c["k"])
 
 
 def rule_name(i):
